@@ -252,8 +252,13 @@ auto harris_michael_list_based_set<Key, Policies...>::iterator::operator++() -> 
   assert(info.cur.get() != nullptr);
   auto next = info.cur->next.load(std::memory_order_relaxed);
   guard_ptr tmp_guard;
+  // cur->next can change while cur is not marked (a node got inserted behind cur or cur's successor
+  // got removed) -> simply retry with the new successor; only a marked cur has to be left via find.
   // (1) - this acquire-load synchronizes-with the release-CAS (7, 8, 10, 13)
-  if (next.mark() == 0 && tmp_guard.acquire_if_equal(info.cur->next, next, std::memory_order_acquire)) {
+  while (next.mark() == 0 && !tmp_guard.acquire_if_equal(info.cur->next, next, std::memory_order_acquire)) {
+    next = info.cur->next.load(std::memory_order_relaxed);
+  }
+  if (next.mark() == 0) {
     info.prev = &info.cur->next;
     info.save = std::move(info.cur);
     info.cur = std::move(tmp_guard);
